@@ -179,8 +179,9 @@ func (c *c15kcase) run() (string, error) {
 	st.VerifCepLiftGuards()
 	idx := map[int]int{}
 	for i, r := range c.rows {
-		st.VerifCepFeed(map[string]any{"id": i + 1, "p": fmt.Sprintf("p%d", r.part), "c": string(c15classes[r.cls]),
-			"v": r.v, "ts": r.ts, "w": 1 << idx[r.part]})
+		ev := r.event(i + 1)
+		ev["w"] = 1 << idx[r.part]
+		st.VerifCepFeed(ev)
 		idx[r.part]++
 	}
 	s.Stop()
@@ -208,7 +209,7 @@ func (c *c15kcase) line(out string) string {
 	}
 	sb.WriteString(" #")
 	for _, r := range c.rows {
-		fmt.Fprintf(&sb, " %d %d %d %d", r.part, r.cls, r.v, r.ts)
+		sb.WriteString(" " + r.toks())
 	}
 	sb.WriteString(" #")
 	if out != "" {
@@ -409,6 +410,20 @@ func c15krandom(r *RNG, maxPer int) *c15kcase {
 			ts += r.Intn(2)
 		}
 		c.rows = append(c.rows, c15row{part: p, cls: cl, v: r.Intn(10), ts: ts})
+	}
+	// a fifth of the cases: events without column c (absent key, now and then explicit nil) right
+	// among the events whose class two variables accept; column v stays (the conditions over the
+	// classification read it)
+	if r.Intn(5) == 0 {
+		for i := range c.rows {
+			if r.Intn(100) < 25 {
+				c.rows[i].nc = 1
+				if r.Intn(5) == 0 {
+					c.rows[i].nc = 2
+				}
+			}
+		}
+		c.tag += " K_rows_without_class_column"
 	}
 	c.tag += fmt.Sprintf(" K_skip_%s K_parts_%d", c.skip, np)
 	if c.allRows {
